@@ -6,12 +6,13 @@ CONSTANTS
   NP = 1
   Names = {"a", "b"}
   Vals = {1, 2}
-  Acts = {"CreateGroup", "CreateObject", "AddData", "SetVal", "Rename", "RemoveViaWorkspace", "RemoveViaParent", "Close", "Open", "CallClosed", "AddToGroup"}
+  Acts = {"CreateGroup", "CreateObject", "AddData", "SetVal", "Rename", "RemoveViaWorkspace", "RemoveViaParent", "Close", "Open", "CallClosed", "AddDataFails", "SaveAs", "Helper"}
   Deviations = {"CloseKeepsOrphans"}
-  MaxDepth = 6
+  MaxDepth = 5
 CONSTRAINT DepthBound
 VIEW vw
 INVARIANT TypeOK
+INVARIANT DirtyOnlyInRW
 INVARIANT ReopenEqualsLive
 INVARIANT LinksToNodes
 INVARIANT OneParent
@@ -21,6 +22,7 @@ INVARIANT NoDanglingPG
 INVARIANT RegistryMatchesMemory
 PROPERTY Footprint
 PROPERTY FrozenFile
+PROPERTY OptStaysStripped
 INVARIANT ExportState
 ACTION_CONSTRAINT ExportTrans
 CHECK_DEADLOCK FALSE
